@@ -52,7 +52,7 @@ func newGameModel(c *Ctx, rule string) *gameModel {
 					if f == nil || inFamily[f] || f.Blocks == nil || f.Signature.Recv() == nil || f.Pkg != g.push.Pkg {
 						continue
 					}
-					isCount := f.Signature.Results().Len() == 1 && types.Identical(f.Signature.Results().At(0).Type(), types.Typ[types.Int]) && f.Signature.Params().Len() == 3
+					isCount := f.Signature.Results().Len() == 1 && types.Identical(f.Signature.Results().At(0).Type(), types.Typ[types.Int]) && (f.Signature.Params().Len() == 3 || (f.Signature.Params().Len() == 0 && walksPrev(f)))
 					if types.Identical(f.Signature.Recv().Type(), g.push.Signature.Recv().Type()) && !isCount {
 						inFamily[f] = true
 						family = append(family, f)
@@ -77,7 +77,7 @@ func newGameModel(c *Ctx, rule string) *gameModel {
 			if call, ok := ins.(*ssa.Call); ok {
 				// the exact re-count: (board, node, colour, limit) -> int, as a method of the board or as a
 				// function taking the board first
-				if f := call.Call.StaticCallee(); f != nil && !inFamily[f] && c.P.IsRepoFunc(f) && len(f.Params) == 4 {
+				if f := call.Call.StaticCallee(); f != nil && !inFamily[f] && c.P.IsRepoFunc(f) && (len(f.Params) == 4 || (len(f.Params) == 1 && walksPrev(f))) {
 					res := f.Signature.Results()
 					first := namedOf(f.Params[0].Type())
 					if res.Len() == 1 && types.Identical(res.At(0).Type(), types.Typ[types.Int]) && first != nil && g.boardT != nil && first.Obj() == g.boardT.Obj() {
@@ -224,4 +224,20 @@ func joinNonEmpty(parts ...string) string {
 		}
 	}
 	return strings.Join(res, "; ")
+}
+
+
+// walksPrev: the function follows the prev links of the history (the exact re-count does; nothing else that returns an
+// int from the board alone does).
+func walksPrev(f *ssa.Function) bool {
+	for _, b := range f.Blocks {
+		for _, ins := range b.Instrs {
+			if fa, ok := ins.(*ssa.FieldAddr); ok {
+				if n, name, _, ok := addrField(fa); ok && core.ObjName(n.Obj()) == "node" && name == "prev" {
+					return true
+				}
+			}
+		}
+	}
+	return false
 }
